@@ -21,7 +21,11 @@ and every mismatch of a model with pi inside a trigonometric argument is reporte
 fraction of the models has intermediates that mention a d<state>_dt name.  Exception signatures are classified from the model text:
 codegen-raises:AttributeError@<site> gets :boolean-used-arithmetically when the message names a sympy Boolean and the text uses a relational /
 logical value as a number (`2 + Eq(2, 1e-1)`; modelgen.boolean_in_arithmetic), rhs-raises:<Exc> of such a text gets
-:boolean-used-arithmetically:<message key> (`2**-aux**2` with an integer-typed aux: integers-to-negative-integer-powers-are); others stay bare.  A case is non-trivial when the model has an
+:boolean-used-arithmetically:<message key> (`2**-aux**2` with an integer-typed aux: integers-to-negative-integer-powers-are); an exception at a
+_print_Piecewise site gets :piecewise-collapses-under-simplify when sympy.simplify, applied by the oracle to the Piecewise sub-expressions of
+the LOADED model, returns something that is no longer a Piecewise of the same number (>= 2) of branches ending in True, or raises (what
+codegen.base._print_Piecewise does before the printers index the result); PrintMethodNotImplementedError gets :unprintable-<node> from
+`Unsupported by <class ...>: re`; AttributeError@_hprint_Pow gets its message key (common.codegen_exception_class); others stay bare.  A case is non-trivial when the model has an
 intermediate or an expression of nesting depth >= 2 and the reference rhs is not identically zero; cases are
 distinct by sha1(model text, point)."""
 
@@ -114,8 +118,8 @@ def check(case):
         sig = f"C01:codegen-raises:{cm.exc_site(e)}"
         # a sympy Boolean handled as a number (`'BooleanFalse' object has no attribute 'as_coeff_Mul'`) in a model whose TEXT uses a
         # relational / logical value as a number: the listed boolean-used-arithmetically finding; anything else keeps the bare signature
-        if isinstance(e, AttributeError) and "Boolean" in str(e) and ref.boolean_used_arithmetically():
-            sig += ":boolean-used-arithmetically"
+        # (common.codegen_exception_class: also :piecewise-collapses-under-simplify at a _print_Piecewise site, :unprintable-<node>, message key at _hprint_Pow)
+        sig += cm.codegen_exception_class(e, cm.model_exprs(ode), ref)
         add(sig, "numpy code generation raises for an accepted model", {"ode": text}, "code", cm.exc_name(e), cm.short(e), base=sig)
         return res
     try:
